@@ -272,6 +272,7 @@ def evidence(ctx, spec_all, results, kres):
             "bounds": PROPS[ctx.prop].get("bounds_text", {}),
             "range_over_map_sites": sorted(set(range_map))[:50],
             "solver": {"primary": "z3 4.8.12", "second": "z3 5.1.0 (thorough tier)", "total_ms": solver_ms, "max_ms": max_ms, "inconclusive": unknown},
+            "pipeline_observations": [{"name": o["name"], "mode": o["mode"], "functions": o.get("funcs"), "failures": o.get("failures")} for o in getattr(ctx, "observations", [])],
             "known_findings_reported": [list(k[:3]) for k in ctx.known],
             "errors": ctx.errors[:20],
             "exhaustive": False,
@@ -294,7 +295,17 @@ def do_replay(prop, path):
     ctx.build_plugin()
     if info.get("level") == "K":
         import klevel
+        info["path"] = path
         return klevel.replay_bundle(ctx, info)
+    if info.get("level") == "O":
+        p = sh([os.path.join(VERIF, "bin/corpus"), "observe", "-plugin", ctx.plugin, "-out", os.path.join(ctx.work, "observe")], timeout=900)
+        for o in json.loads(p.stdout.decode()):
+            if o["name"] == info["name"] and o["mode"] == info["mode"] and o.get("failures"):
+                print(json.dumps(o["failures"]))
+                print("VIOLATION property=%s replay=%s" % (prop, path))
+                return 1
+        print("replay does not fail on this tree")
+        return 0
     d = os.path.join(ctx.work, re.sub(r"[^A-Za-z0-9_-]+", "_", info["program"]))
     b = info.get("bounds") or {}
     if info.get("variant"):
@@ -378,6 +389,25 @@ def main():
         kres = klevel.run(ctx, spec["K"])
         for r in kres:
             klevel.judge(ctx, spec["K"], r)
+    obs = []
+    if "O" in spec and a.only in ("", "O"):
+        od = os.path.join(ctx.work, "observe")
+        p = sh([os.path.join(VERIF, "bin/corpus"), "observe", "-plugin", ctx.plugin, "-out", od], check=False, timeout=900)
+        if p.returncode != 0:
+            ctx.errors.append("pipeline observation failed: " + p.stderr.decode()[-800:])
+        else:
+            obs = json.loads(p.stdout.decode())
+            for o in obs:
+                for f in o.get("failures") or []:
+                    bd = os.path.join(VERIF, "replays", ctx.prop, "O-%s-%s-%d" % (o["name"], o["mode"], len(ctx.violations) + 1))
+                    shutil.rmtree(bd, ignore_errors=True)
+                    os.makedirs(bd)
+                    json.dump({"property": ctx.prop, "level": "O", "name": o["name"], "mode": o["mode"], "failure": f, "funcs": o.get("funcs"), "log_tail": o.get("log_tail")},
+                              open(os.path.join(bd, "replay.json"), "w"), indent=1)
+                    if o.get("request") and os.path.exists(o["request"]):
+                        shutil.copy(o["request"], os.path.join(bd, "request.bin"))
+                    ctx.violations.append(("%s/%s: %s" % (o["name"], o["mode"], f), "pipeline", bd))
+    ctx.observations = obs
     evidence(ctx, spec, results, kres)
     for exc, label, prog, bd in ctx.known:
         print("KNOWN-FINDING: property=%s %s (%s, %s) replay=%s" % (ctx.prop, exc, prog, label, bd))
